@@ -403,8 +403,8 @@ pub fn run_srv(toks: &[&str], dir: &Path) -> String {
 
 // ---------------------------------------------------------------- generator
 
-pub const TREE: &str = "d:srv,d:srv/sub,f:srv/a.txt:P100_1,f:srv/sub/b.bin:P1300_2,f:srv/empty:-,f:srv/big:P5000_3,f:srv/probe.txt:P600_7,\
-d:snd,f:snd/s.txt:P700_4,d:snd/sub,f:snd/sub/b.bin:P1300_2,f:snd/probe.txt:P600_7,f:snd/a.txt:P100_1,\
+pub const TREE: &str = "d:srv,d:srv/sub,f:srv/a.txt:P100_1,f:srv/sub/b.bin:P1300_2,f:srv/empty:-,f:srv/big:P5000_3,f:srv/probe.txt:P600_7,f:srv/huge:P70000_5,\
+d:snd,f:snd/s.txt:P700_4,d:snd/sub,f:snd/sub/b.bin:P1300_2,f:snd/probe.txt:P600_7,f:snd/a.txt:P100_1,f:snd/huge:P70000_5,\
 d:rcv,f:rcv/old.bin:P2000_5,d:rcv/sub,f:rcv/tiny:P3_6,d:out,f:out/canary:P64_9,d:srv-x,f:srv-x/secret:P33_8";
 
 fn tree_token() -> String {
@@ -625,6 +625,14 @@ pub fn gen_srv(rng: &mut Rng, count: u64, tier: &str) -> Vec<String> {
             }
             steps.push(probe.clone());
             out.push(format!("srv {flags} 0 {tree} {}", steps.join(";")));
+        }
+    }
+    // a file longer than the largest block: block sizes at and beyond the upper bound (the block length used must be the
+    // acknowledged one, and values beyond the bound must not be acknowledged at all)
+    for flags in ["-", "s"] {
+        for b in ["65464", "65465", "65500", "65503", "32768"] {
+            let o = vec![("blksize".to_string(), b.to_string())];
+            out.push(format!("srv {flags} 0 {tree} q0:{}:D;{probe}", hex(&req(1, b"huge", &o))));
         }
     }
     // names that do not exist, with tsize (and other options): the refusal must come
